@@ -18,7 +18,8 @@ PARTS = {"c03fs": "fs", "c03vault": "vault", "c03ks": "ks", "c03api": "api"}
 REQUIRED = [
     "kid_confined", "kid_confined_vault", "valid_kid_bytes", "kid_pattern_language", "uuid_names_confined",
     "backend_names_valid_or_drawn", "key_material_does_not_flow", "fact_uuid_bytes_allowed",
-    "error_text_independent_of_key_material", "fact_no_key_variable_formatted", "pattern_alone_does_not_confine_vault",
+    "error_text_independent_of_key_material", "fact_no_key_variable_formatted",
+    "signjwt_no_private_jwk", "fact_signjwt_guard", "sign_audit_ignores_jwk_header", "pattern_alone_does_not_confine_vault",
     "wrapper_validates_all_kid_methods", "unknown_kid_never_signs", "sign_only_by_reference",
     "backend_touched_only_at_valid_or_new_names", "keyref_binding", "signature_verifies_with_published_key_only",
     "signjws_no_private_jwk", "store_signjws_headers", "store_key_as_jwk_header_refused", "signjws_rule_is_signer_typed",
@@ -249,12 +250,12 @@ def run(ctx):
         total += len(impl)
         kinds = Counter()
         published = {}
-        bound = set()       # kids that have a reference row according to the implementation's own answers
+        bound = set()       # kids that MAY have a reference row according to the implementation's own answers (over-approximation)
+        surely_bound = set()  # kids that certainly have one: New / Link succeeded and no Delete since
         seq_names = set()   # key names drawn in this sequence (Migrate may bind them as kids)
         seq_start = 0
         unknown_used = 0
         bind_bad = multi = hdr_bad = 0
-        jwt_private = 0
         signs_ok = 0
         hdr_feat = Counter()
         audit_events = Counter()
@@ -268,6 +269,14 @@ def run(ctx):
                 line = line[:ma.start()]
                 for ev in filter(None, ma.group(1).split(";")):
                     audit_events[ev.split(":", 1)[0]] += 1
+            if ma and "UNEXPECTED-FIELDS" in ma.group(1):
+                found_violation |= ctx.violation("C03:audit:%s-record-carries-extra-fields" % k,
+                                                 f"audit record of {k} has fields beyond actor/operation/event/module: {ma.group(1)[:200]}",
+                                                 "audit-extra-fields.jsonl", ops[i] if k in ("signjws", "signjwt") else "\n".join(ops[seq_start:i + 1]))
+            if k == "new" and line.startswith("new ok") and op.get("kid") in surely_bound:
+                found_violation |= ctx.violation("C03:ks:new-silently-repointed-an-existing-kid",
+                                                 f"New for kid {op.get('kid')!r}, which already had a key reference, succeeded: the kid now signs with another key than the one published before ({line[:100]})",
+                                                 "ks-new-repoints-kid.jsonl", "\n".join(ops[seq_start:i + 1]))
             me = re.search(r' err="(.*)"', line)
             if me:
                 err_texts[re.sub(r"[0-9a-f]{8}-[0-9a-f-]{27}", "UUID", me.group(1))[:60]] += 1
@@ -276,20 +285,23 @@ def run(ctx):
             if "panic:" in line:
                 found_violation |= ctx.violation("C03:ks:panic", line[:200], "ks-panic.jsonl", "\n".join(ops[seq_start:i + 1]))
             if k == "reset":
-                published, bound, seq_names, seq_start = {}, set(), set(), i
+                published, bound, surely_bound, seq_names, seq_start = {}, set(), set(), set(), i
             elif k == "new":
                 seq_names.add(op.get("keyName"))
                 m = re.match(r"new ok kid=(.*) name=\S+ ver=\S+ key=K(\d+)", line)
                 if m:
                     published[op.get("kid")] = int(m.group(2))
                     bound.add(op.get("kid"))
+                    surely_bound.add(op.get("kid"))
             elif k in ("link", "delete"):
                 if line.endswith(" ok") or k == "delete":
                     published.pop(op.get("kid"), None)
                 if k == "link" and line.endswith(" ok"):
                     bound.add(op.get("kid"))
+                    surely_bound.add(op.get("kid"))
                 if k == "delete":
                     bound.discard(op.get("kid"))
+                    surely_bound.discard(op.get("kid"))
             elif k == "plant":
                 if line.startswith("plant ok"):
                     seq_names.add(op.get("keyName"))
@@ -353,13 +365,11 @@ def run(ctx):
                 m = re.search(r" ok kid=(.*) jwk=(\S+) secret=([01]) names=", line)
                 if m:
                     hdr_feat[f"{k}:ok" + (":jwk" if m.group(2) != "-" else "")] += 1
-                    if m.group(3) == "1" and k == "signjws" and m.group(2) in STORE_KEY_JWKS | {"?"}:
+                    if m.group(3) == "1" and m.group(2) in STORE_KEY_JWKS | {"?"}:
                         hdr_bad += 1
-                        found_violation |= ctx.violation("C03:signjws:private-jwk-in-signed-header",
-                                                         f"SignJWS produced a token whose jwk header carries private key material: {line[:160]}",
-                                                         "signjws-private-jwk.jsonl", ops[i])
-                    if m.group(3) == "1" and k == "signjwt":
-                        jwt_private += 1
+                        found_violation |= ctx.violation(f"C03:{k}:private-jwk-in-signed-header",
+                                                         f"{k} produced a token whose jwk header carries private key material: {line[:160]}",
+                                                         f"{k}-private-jwk.jsonl", ops[i])
                 else:
                     hdr_feat[k + ":" + line.split(" ", 2)[-1][:40]] += 1
             elif k == "new" and ("KEYNAME-" in line):
@@ -368,9 +378,6 @@ def run(ctx):
                    f"{bind_bad} wrong key, {multi} not exactly one verifying key, of {signs_ok} signatures")
         ctx.oblige("oracle:signjws-never-emits-store-type-private-jwk(impl)", hdr_bad == 0, f"{hdr_bad}")
         ctx.oblige("oracle:no-key-use-for-unknown-kid(impl)", unknown_used == 0, f"{unknown_used}")
-        if jwt_private:
-            ctx.notes.append(f"observation (not a violation of the property as stated — the key is the caller's, never a key store key): "
-                             f"SignJWT has no jwk-header rule; {jwt_private} generated calls embedded a caller-supplied private JWK (model predicts the same)")
         dist["keystore"] = {"ops": dict(kinds), "signatures_checked": signs_ok, "audit_records_compared": dict(audit_events),
                             "error_texts_compared": dict(err_texts.most_common(10)), "planted_key_types": dict(Counter(json.loads(o).get("ktype") for o in ops if '"op":"plant"' in o)), "header_outcomes": dict(hdr_feat.most_common(12))}
 
